@@ -90,7 +90,7 @@ def AT(name, cfg, **kw):
 
 def c02_stages(tier):
     st = [AT('compose-q', 'MC_AffTree_compose_q.cfg'), AT('compose-dim', 'MC_AffTree_compose_dim.cfg'),
-          AT('compose-k4', 'MC_AffTree_compose_k4.cfg')]
+          AT('compose-k4', 'MC_AffTree_compose_k4.cfg'), AT('compose-g2', 'MC_AffTree_compose_g2.cfg')]
     if tier == 'thorough':
         st += [AT('compose-t', 'MC_AffTree_compose_t.cfg'), AT('compose-dimt', 'MC_AffTree_compose_dimt.cfg'),
                AT('compose-k4t', 'MC_AffTree_compose_k4t.cfg')]
@@ -121,7 +121,8 @@ def HS(name, cfg, **kw):
 
 
 def prune_stages(tier):
-    st = [HS('prune-q', 'MC_AffTree_prune_q.cfg'), HS('prune-2d', 'MC_AffTree_prune_2d.cfg'), HS('pruneg-q', 'MC_AffTree_pruneg_q.cfg'), HS('prunea-q', 'MC_AffTree_prunea_q.cfg')]
+    st = [HS('prune-q', 'MC_AffTree_prune_q.cfg'), HS('prune-2d', 'MC_AffTree_prune_2d.cfg'), HS('prune-d3', 'MC_AffTree_prune_d3.cfg'),
+          HS('pruneg-q', 'MC_AffTree_pruneg_q.cfg'), HS('prunea-q', 'MC_AffTree_prunea_q.cfg')]
     if tier == 'thorough':
         st += [HS('prune-t', 'MC_AffTree_prune_t.cfg'), HS('pruneg-t', 'MC_AffTree_pruneg_t.cfg')]
     return st
@@ -213,7 +214,7 @@ def history_stages(tier):
 
 
 def c04_stages(tier):
-    return history_stages(tier) + prune_stages(tier)[:1]
+    return history_stages(tier) + prune_stages(tier)[:1] + [AT('compose-g2', 'MC_AffTree_compose_g2.cfg')]
 
 
 def c05_stages(tier):
@@ -244,7 +245,7 @@ def c16_stages(tier):
 def c10_stages(tier):
     st = [LA('lp-t', 'MC_Linalg_lp_t.cfg')] if tier == 'thorough' else [LA('lp-q', 'MC_Linalg_lp_q.cfg')]
     # plus every LP call the library makes during pruning scenarios (in-situ, through the LP tap)
-    return st + prune_stages(tier)[:2]
+    return st + prune_stages(tier)[:2]   # prune-q, prune-2d
 
 
 LINALG_NOTE = ('Small scope: integer data (exact in f64), dimension <= 3, <= 2-4 rows; rows with irrational norms are outside the exact '
